@@ -82,6 +82,12 @@ func (e *env) evalAsymEnc(c Case) []finding {
 		present, lenient := encFaults(entry, a, k, len(p))
 		o := kitEncPub(entry, p, a.Name, k.JWK, ad)
 		var cs []cond
+		if present != 0 {
+			e.st[stRejected]++
+		} else if o.err == nil {
+			e.st[stRoundTrip]++
+			e.st[stRefOpensKit]++
+		}
 		switch {
 		case present != 0:
 			cs = judgeFaulty(present, demandedAsym, o)
@@ -162,6 +168,14 @@ func (e *env) evalAsymDec(c Case) []finding {
 		present := decFaults(entry, a, k)
 		o := kitDecPriv(entry, clip(ct), a.Name, k.JWK, ad)
 		var cs []cond
+		switch {
+		case present != 0:
+			e.st[stRejected]++
+		case c.Mut != nil:
+			e.st[stMutation]++
+		case want != nil:
+			e.st[stKitOpensRef]++
+		}
 		switch {
 		case present != 0:
 			cs = judgeFaulty(present, demandedAsym, o)
@@ -293,10 +307,12 @@ func (e *env) evalSign(c Case) []finding {
 	}
 	o := kitSign(d, a.Name, k.JWK)
 	if !validFor("SignPrivateKey", a) {
+		e.st[stRejected]++
 		add("SignPrivateKey", judgeFaulty(cryptoref.FaultAlg, demandedAsym, o))
 		return s.out
 	}
 	if f := sigKeyFault(a, k, true); f != 0 {
+		e.st[stRejected]++
 		add("SignPrivateKey", sigCond(a, k, judgeFaulty(f, demandedAsym, o)))
 		return s.out
 	}
@@ -312,6 +328,8 @@ func (e *env) evalSign(c Case) []finding {
 		add("SignPrivateKey", []cond{rejectedCond(a, o)})
 		return s.out
 	}
+	e.st[stRoundTrip]++
+	e.st[stRefOpensKit]++
 	if !cryptoref.Verify(a.Ref, refPub(k), d, o.a) {
 		add("SignPrivateKey", []cond{{"signature-rejected-by-reference", fmt.Sprintf("signature %s does not verify under the standard library called directly", hx(o.a))}})
 	}
@@ -349,7 +367,17 @@ func (e *env) refSignature(a *algInfo, d []byte) (sig []byte, signer *cryptokeys
 		kind = cryptokeys.Ed25519Prv
 	}
 	signer = e.asym(kind, "A")
+	id := a.Name + "\x00" + string(d)
+	if s, ok := e.sigCache[id]; ok {
+		return clone(s), signer, nil
+	}
 	sig, err = cryptoref.Sign(a.Ref, refPriv(signer), d)
+	if err == nil {
+		if e.sigCache == nil {
+			e.sigCache = map[string][]byte{}
+		}
+		e.sigCache[id] = clone(sig)
+	}
 	return sig, signer, err
 }
 
@@ -374,6 +402,7 @@ func (e *env) evalVerify(c Case) []finding {
 		return judgeFaulty(present, demandedAsym, o)
 	}
 	if !validFor("VerifyPublicKey", a) {
+		e.st[stRejected]++
 		add(judgeV(cryptoref.FaultAlg, kitVerify(d, cryptokeys.Bytes("arbitrary-signature", 64), a.Name, k.JWK)))
 		return s.out
 	}
@@ -394,10 +423,12 @@ func (e *env) evalVerify(c Case) []finding {
 	}
 	v := kitVerify(d, clip(sig), a.Name, k.JWK)
 	if f := sigKeyFault(a, k, false); f != 0 {
+		e.st[stRejected]++
 		add(sigCond(a, k, judgeV(f, v)))
 		return s.out
 	}
 	if c.Mut != nil {
+		e.st[stMutation]++
 		switch {
 		case v.pan != nil:
 			add([]cond{{"panic", fmt.Sprint(v.pan)}})
@@ -406,6 +437,7 @@ func (e *env) evalVerify(c Case) []finding {
 		}
 		return s.out
 	}
+	e.st[stKitOpensRef]++
 	if k.Which == signer.Which {
 		// the matching key (public, or private handed in: see evalSign)
 		if v.pan != nil || (v.err == nil && !v.ok) || (v.err != nil && (v.ok || !k.Private)) {
